@@ -6,8 +6,8 @@
    Model/Literal.v (PRQL literal spellings -> values -> SQL text).
    Tables: Gen/GenLiteral.v, regenerated from /repo on every run (vplib/props/c08_gen.py). *)
 From Coq Require Import List NArith ZArith Bool.
-From PV Require Import Lib.ListX Model.Escape Model.SqlLex Model.SqlLexBq Model.Literal
-                       Proofs.EscapeProofs Proofs.SqlLexBqProofs Proofs.LiteralProofs Gen.GenLiteral.
+From PV Require Import Lib.ListX Model.Escape Model.SqlLex Model.SqlLexBq Model.Literal Model.FloatFmt
+                       Proofs.EscapeProofs Proofs.SqlLexBqProofs Proofs.LiteralProofs Proofs.FloatFmtProofs Gen.GenLiteral.
 Import ListNotations.
 Local Open Scope N_scope.
 
@@ -251,6 +251,36 @@ Theorem based_number_value : forall row s, In row rows -> based_number row s = b
 Proof. exact (based_rows_no_overflow rows c08_based_rows_fit). Qed.
 Print Assumptions based_number_value.
 
+(* floats.  A float literal's spelling denotes the decimal value m * 10^e (lex_number: NDec m e); translate_literal prints
+   the binary64 nearest to it with Rust's {:?}: the shortest digits that read back, laid out as ddd.ddd or d.ddde<x>
+   (Model/FloatFmt.v emit_float: the layout on the spelling's own digits -- what Rust prints on the class in_class,
+   <= 15 significant digits; compared with the implementation by stream float-text).
+   For EVERY m and e the emitted text denotes exactly m * 10^e (both sides in normal form) ... *)
+Theorem float_text_value : forall m e, sql_number_value (emit_float m e) = Some (norm_dec m e).
+Proof. exact emit_float_value. Qed.
+Print Assumptions float_text_value.
+
+(* ... and is one number token on every reader: no float can change the statement's structure *)
+Theorem float_text_one_token : forall d m e, sql_lex d (emit_float m e) = [TNumber (emit_float m e)].
+Proof. exact emit_float_one_token. Qed.
+Print Assumptions float_text_one_token.
+
+(* What translate_literal really emits is emit_float_rust: the word inf when the value rounds to infinity in binary64.
+   FULL STATEMENT (false, finding F14):  forall m e, sql_number_value (emit_float_rust m e) = Some (norm_dec m e). *)
+Theorem float_roundtrip_refuted :
+  exists m e, sql_number_value (emit_float_rust m e) = None /\ forall d, sql_lex d (emit_float_rust m e) = [TWord s_inf].
+Proof. exists 1, 400%Z. split; [vm_compute; reflexivity | intro d; vm_compute; reflexivity]. Qed.
+Print Assumptions float_roundtrip_refuted.
+
+Theorem float_roundtrip_partial : forall d m e, overflows m e = false ->
+  sql_number_value (emit_float_rust m e) = Some (norm_dec m e) /\
+  sql_lex d (emit_float_rust m e) = [TNumber (emit_float_rust m e)].
+Proof.
+  intros d m e H. split; [exact (emit_float_rust_value m e H)|].
+  unfold emit_float_rust. rewrite H. apply emit_float_one_token.
+Qed.
+Print Assumptions float_roundtrip_partial.
+
 Theorem bool_roundtrip : forall d b, sql_lex d (emit_bool b) = [TWord (emit_bool b)].
 Proof. exact LiteralProofs.bool_roundtrip. Qed.
 Print Assumptions bool_roundtrip.
@@ -308,6 +338,13 @@ Example c08_ex_bq_fits : bq_fits true [105; 116; 39; 115; 39] = true /\ bq_fits 
 Proof. vm_compute. repeat split; reflexivity. Qed.
 Example c08_ex_bq_triple : bq_lex true [39;39;39;97;39;39;98;39;39;39;32;39;39] = [TString [97;39;39;98]; TString []].      (* '''a''b''' '' *)
 Proof. vm_compute. reflexivity. Qed.
+Example c08_ex_float_layout :
+  (emit_float 15 (-1), emit_float 1000 0, emit_float 1 16, emit_float 1 (-4), emit_float 1 (-5), emit_float 602 21, emit_float 0 7) =
+  ([49;46;53], [49;48;48;48;46;48], [49;101;49;54], [48;46;48;48;48;49], [49;101;45;53], [54;46;48;50;101;50;51], [48;46;48]).
+Proof. vm_compute. reflexivity. Qed.       (* 1.5  1000.0  1e16  0.0001  1e-5  6.02e23  0.0 *)
+Example c08_ex_float_class : in_class 123456789012345 (-20) = true /\ in_class 1234567890123456 0 = false
+                             /\ overflows 17976931348623157 292 = false /\ overflows 17976931348623159 292 = true /\ overflows 1 999999 = true.
+Proof. vm_compute. repeat split; reflexivity. Qed.
 Example c08_ex_context : closed_prefix std_sql [83;69;76;69;67;84;32] = true.                       (* "SELECT " *)
 Proof. vm_compute. reflexivity. Qed.
 Example c08_ex_hex : based_numbers rows [48;120;49;102] = Some (31, []).                              (* 0x1f *)
